@@ -1,5 +1,6 @@
 import Gtree.Generated.Source
 import Gtree.Model.FS
+import Gtree.Model.Spread
 /-
   The operating-system calls of the pointer code translated in heap mode (/verif/translate/heap.go), as operations of
   the finite-map file-system model (`Model/FS.lean`): `os.Stat`, `os.IsNotExist`, `os.MkdirAll`, `os.Create`,
@@ -29,5 +30,18 @@ def os_Create (fs : FS) (p : Bytes) : FS × Option Src.Err :=
 
 /-- `filepath.Join(elems...)` on a slash-separated system is the model's `filepathJoin` -/
 def filepath_Join (elems : List Bytes) : Bytes := Gtree.filepathJoin elems
+
+/-- the caller's `io.Writer` as the model's writer with a fault oracle (`WFault`): how many `Write`s it has seen and
+    what it has accepted so far -/
+structure Writer where
+  fault : WFault
+  calls : Nat
+  out : Bytes
+
+/-- `_, err := fmt.Fprint(w, s)`: one `Write` of the bytes of `s`; the writer's fault index decides -/
+def fmt_Fprint (w : Writer) (s : Bytes) : Writer × Option Src.Err :=
+  if w.fault.failAt == some w.calls then
+    ({ w with calls := w.calls + 1, out := w.out ++ s.take w.fault.short }, some Src.Err.writer)
+  else ({ w with calls := w.calls + 1, out := w.out ++ s }, none)
 
 end Gtree.Go
